@@ -181,8 +181,8 @@ func (c06) Run(c Case, env *Env) Result {
 						continue // its list/class names collide with an earlier value's
 					}
 					hist = append(hist, v)
-					if rv := reflect.ValueOf(v); rv.Kind() == reflect.Ptr {
-						ptrs = append(ptrs, v)
+					if rv := reflect.ValueOf(v); rv.Kind() == reflect.Ptr || ((rv.Kind() == reflect.Slice || rv.Kind() == reflect.Map) && rv.Len() > 0 && rv.Type().Elem().Kind() != reflect.Uint8) {
+						ptrs = append(ptrs, v) // pointers, and slices / maps (the encoder refers back to those too)
 					}
 				}
 			}
